@@ -28,7 +28,8 @@ MPOOL = [('mexp', 'central', 2, 2, 'default', 'Hessdiag'), ('mexp', 'forward', 2
          ('mexp', 'central', 1, 2, 'default', 'Gradient'), ('mexp', 'central', 2, None, 'default', 'Hessian'),
          ('vexp', 'forward', 1, 2, 'default', 'Jacobian')]
 # further configurations used by thread pairs only (not part of the history alphabet)
-XPOOL = [('exp', 'complex', 1, 2, 'default'), ('exp', 'complex', 2, 4, 'default')]
+XPOOL = [('exp', 'complex', 1, 2, 'default'), ('exp', 'complex', 2, 4, 'default'),
+         ('wexp', 'central', 1, 2, 'default')]       # a user function that emits a warning on every evaluation
 POOL_ALL = POOL + MPOOL + XPOOL
 
 
@@ -54,6 +55,7 @@ def all_ref_jobs():
                 for gen in ('default', 'max', 'min', 'ratio3'):
                     for xi in range(len(XS)):
                         jobs.append((('exp', method, n, order, gen), xi))
+    jobs.append((('wexp', 'central', 1, 2, 'default'), 0))
     for cfg in MPOOL:
         for method in M_ALT:
             for order in ([None] if cls_of(cfg) == 'Hessian' else O_ALT):
@@ -404,7 +406,7 @@ def _pmap_collect(ctx, frontier, refs, mode='full'):
 
 PAIRS = [(0, 0), (0, 1), (1, 5), (0, 3), (0, 4), (2, 5), (4, 4)]
 MPAIRS = [(6, 6), (6, 7), (6, 9), (8, 10), (0, 6)]      # thread pairs with multivariate classes (array point)
-XPAIRS = [(4, 11), (11, 12)]      # complex-step objects of different (n, order) classes (scalar point)
+XPAIRS = [(4, 11), (11, 12), (0, 13)]      # complex-step objects of different (n, order) classes (scalar point)
 TRIPLES = [(0, 0, 1), (0, 2, 4)]
 
 
@@ -415,13 +417,17 @@ def make_bodies_factory(cis, xi):
 
             def b():
                 obj = ref.build(cfg[0], cfg[1], cfg[2], cfg[3], cfg[4], cls=cls_of(cfg))
-                return ref.observe(obj, XS[xi])
+                return (ref.observe_raw if noisy else ref.observe)(obj, XS[xi])
             return b
+        # a pair with a warning-emitting user function runs without per-call warnings contexts (they are process-global)
+        noisy = any(POOL_ALL[ci][0] == 'wexp' for ci in cis)
         return [body(ci) for ci in cis]
     return make
 
 
 def work_sched(chunk, refs=None):
+    import warnings
+    warnings.simplefilter('ignore')      # (worker process: keep the noise of 'wexp' off stderr)
     from mc import engine_sched as es
     import numdifftools.finite_difference as fdm
     from mc.engine_states import digest
